@@ -165,5 +165,17 @@ def run_cases(modname: str, cases: Iterable[dict], *, batch_size: int = 64, opts
         for job in jobs:
             yield from process_batch(job)
         return
-    for results in pool().imap_unordered(process_batch, jobs):
+    the_pool = pool()
+    pids = sorted(p.pid for p in the_pool._pool)  # noqa: SLF001 - a worker that dies is silently replaced; its task is lost
+    it = the_pool.imap_unordered(process_batch, jobs)
+    while True:
+        try:
+            results = it.next(timeout=60)
+        except StopIteration:
+            break
+        except mp.TimeoutError:
+            now = sorted(p.pid for p in the_pool._pool)  # noqa: SLF001
+            if now != pids:
+                raise RuntimeError(f"a pool worker died while exploring (killed? out of memory?): worker pids {pids} -> {now}; its task is lost, the exploration cannot complete") from None
+            continue
         yield from results
